@@ -3,6 +3,7 @@ import time
 from lib import vcommon as vc
 from lib import models
 from checks import hrun_common as hc
+from checks import c07
 
 PID = "C08"
 T = models.text
@@ -79,6 +80,14 @@ def run(tier, seed):
     for k in ("ended_by_predicate", "ended_by_time", "ended_by_stop"):
         if hc.counters_nz(m, k) == 0:
             raise vc.EngineError(f"vacuous: no execution '{k}'")
+    # module level, liveness direction: the termination module must vote when every LP is terminated below the reported GVT
+    from checks import c07
+    srep = vc.run_seqx(c07.build_sterm(d), [5 if tier == "quick" else 6, "live"], timeout=3000,
+                       env_extra={"SX_DEADLINE": "300" if tier == "quick" else "2400"})
+    stot, sviol = vc.seqx_collect(PID, "term-live", [srep])
+    if not sviol and stot["states"] < 1000:
+        raise vc.EngineError("vacuous: the termination-module enumeration hardly ever reached a state in which a vote is due")
+    viol += sviol
     n = vc.triage(PID, viol)
     cov = hc.coverage_from(m, reps, "termination_checked",
                            "as C01/C04 with the atomics of gvt.c, termination.c, parallel.c (and sync.c) as scheduling points; endings by "
@@ -89,6 +98,13 @@ def run(tier, seed):
                            "all threads exited and RootsimRun returned (deadlock = every live thread parked/blocked, confirmed twice; "
                            "livelock = step/choice-point budget of 40k exhausted), LP_FINI exactly once per LP; non-trivial = execution that returned "
                            "and was checked")
+    cov["termination_module_sequences"] = {"evaluations": stot["evaluations"], "vote_due_cases": stot["states"], "depth": srep.get("depth"),
+                                           "exhaustive": srep.get("exhaustive"), "samples": stot["samples"][:2]}
+    cov["evaluations"] += stot["evaluations"]
+    cov["rule"] += ("; plus s_term in mode live: every sequence of <= %s calls of the termination module for 2 LPs (as in C07) against a boring "
+                    "reference of its own rule - terminated at LP_INIT for good, or since a true event at T until a rollback at a time <= T; "
+                    "at every GVT report above every termination time ever declared with all LPs terminated the thread must vote"
+                    % srep.get("depth"))
     vc.write_evidence(PID, tier, "model_checking", cov,
                       ["liveness is decided as 'terminates under the fair default continuation after <= p non-default decisions within the "
                        "step budget'; unbounded unfair schedules are out of scope",
@@ -99,5 +115,12 @@ def run(tier, seed):
 
 def replay(path):
     d = vc.fresh_dir(PID + "_replay")
+    if path.endswith(".json"):
+        import json
+        r = json.load(open(path))
+        rep = vc.run_seqx(c07.build_sterm(d), r["args"])
+        hit = [v for v in rep["violations"] if v["signature"] == r["signature"]]
+        print(json.dumps(hit[:1] or "not reproduced", indent=1))
+        return 1 if hit else 0
     ranks = 2 if "h_run2" in path or "r2x" in path else 1
     return vc.rsched_replay(hc.build(d, ranks=ranks), path)
